@@ -184,6 +184,56 @@ FAR = [("v6", "2001:db8::1"), ("v6", "2001:DB8::A"), ("v6", "::ffff:192.0.2.1"),
        ("v6", "1:2:3:4:5:6:7:8"), ("v6", "::12"), ("v4", "192.0.2.1"), ("v4", "10.1.2.3")]
 
 
+HH_SCHEMES = [  # text, base, default port, stream?
+    ("http", "http", "80", True), ("https", "https", "443", True), ("h3", "h3", "443", False),
+    ("HTTP", "http", "80", True), ("Https", "https", "443", True), ("H3", "h3", "443", False)]
+HH_HOSTS = [("v4", "192.0.2.53"), ("v4", "127.0.0.1"), ("v6", "2001:db8::53"), ("v6", "::1"), ("v6", "2001:DB8::A"),
+            ("v6", "::ffff:192.0.2.1"), ("v6", "1:2:3:4:5:6:7:8"), ("v6", "::"), ("dom", "dns.example"),
+            ("dom", "localhost"), ("dom", "x-y_z.example.com")]
+HH_OTHER_PORTS = ["8443", "8080", "1", "65535", "00443", "0080", "4430", "44", "53"]
+
+
+def hosthdr_fields(st, base, dport, stream, hk, name, port, da, h1, listen=None):
+    """one endpoint case line (without id) whose URL authority is hk/name[:port]; da is the way to the fake server"""
+    text = "[" + name + "]" if hk == "v6" else name
+    auth = text + (":" + port if port else "")
+    url = st + "://" + auth + "/dns-query"
+    if da is None:
+        expdial, expnet = join(name, port or dport), ("tcp" if stream else "udp")
+    elif da == "@U":
+        expdial, expnet, listen = "@U", "unix", "unix"
+    else:
+        expdial, expnet = da, ("tcp" if stream else "udp")
+        listen = "v6" if da.startswith("[") else "v4"
+    tls = base != "http"
+    return ("url=%s da=%s listen=%s san=%s snivis=%d loop=0 sch=%s hk=%s expdial=%s expnet=%s name=%s auth=%s h1=%d "
+            "cls=hosthdr/%s" % (hs(url), hs(da or ""), listen, name if tls else "-", 1 if hk == "dom" else 0, base,
+                                hk + ("p" if port else "") + ("+da" if da else ""), expdial, expnet, name, auth, h1,
+                                "none" if port is None else ("default" if port == dport else "other")))
+
+
+def hosthdr_cases(rng, tier):
+    out = []
+    k = 0
+    for (st, base, dport, stream) in HH_SCHEMES:
+        for (hk, name) in HH_HOSTS:
+            other_default = "80" if dport == "443" else "443"
+            ports = [None, dport, rng.choice(HH_OTHER_PORTS + [other_default])]
+            if tier == "thorough":
+                ports += [other_default] + rng.sample(HH_OTHER_PORTS, 3)
+            for port in ports:
+                das = ["127.0.0.1:" + PORT, "[::1]:" + PORT] + (["@U"] if stream else [])
+                da = das[k % len(das)]
+                k += 1
+                out.append(hosthdr_fields(st, base, dport, stream, hk, name, port, da, (k // 3) % 2 if base == "https" else 0))
+    # the default port written out and NO dial_addr: the fake server sits on the privileged port itself (machine lock)
+    for (st, base, dport, stream, hk, name, listen) in [("https", "https", "443", True, "v4", "127.0.0.1", "priv4"),
+                                                         ("http", "http", "80", True, "v6", "::1", "priv6"),
+                                                         ("h3", "h3", "443", False, "v6", "::1", "priv6")][:budget(tier, 3, 3)]:
+        out.append(hosthdr_fields(st, base, dport, stream, hk, name, dport, None, 0, listen=listen))
+    return out
+
+
 def endpoint_gen(rng, tier):
     out = []
     n = 0
@@ -250,6 +300,12 @@ def endpoint_gen(rng, tier):
                                    % (n, hs(url), hs(da or ""), listen, san if tls else "-", snivis, loop, base,
                                       hk + ("p" if port else "") + ("+da" if da else ""), expdial, expnet, name, auth))
                         n += 1
+    # round 4 — the Host header / :authority an actual DoH request carries, for the URL-host grammar x
+    # {port absent, the scheme's DEFAULT port written out, other ports}: the server is reached through dial_addr (or,
+    # budgeted, on the privileged default port itself), so the URL authority is free
+    for ln in hosthdr_cases(rng, tier):
+        out.append("e%d %s" % (n, ln))
+        n += 1
     # unsupported / malformed forms: both sides must refuse
     for u in ["ftp://127.0.0.1", "udp+pipeline://127.0.0.1", "http+pipeline://127.0.0.1", "tls://127.0.0.1:x",
               "tls://[::1]:5x", "tls://[::1]x", "3tls://127.0.0.1", "://127.0.0.1"]:
@@ -306,7 +362,10 @@ def endpoint_oracle(line, res):
     if r.get("sni", "-") != "-" and r["sni"] != f["name"]:
         return "SNI %s is not the URL host %s" % (r["sni"], f["name"])
     if r.get("host", "-") != "-" and r["host"] != f["auth"]:
-        return "HTTP Host %s is not the URL authority %s" % (r["host"], f["auth"])
+        return "the %s the server received is %s, not the URL authority %s as written in the configuration" % (
+            "HTTP/1.1 Host header" if r.get("hv") == "1" else "HTTP/%s :authority" % r.get("hv", "?"), r["host"], f["auth"])
+    if f.get("cls", "").startswith("hosthdr") and r.get("x") == "ok" and r.get("host", "-") == "-":
+        return "the DoH request reached the server without a Host / :authority"
     if f["listen"] != "none" and f["san"] != "-":
         if f["san"] == f["name"] and r.get("hs") == "fail":
             return "server with a certificate for the URL host (%s) was not reached/accepted" % f["name"]
@@ -543,20 +602,26 @@ def upc_spellings(rng, tier):
     return res
 
 
-def upc_line(cid, st, srv, tls, http, mode, ca, ck, ins, peer, srvreq, v6=False, urlport=True):
+def upc_line(cid, st, srv, tls, http, mode, ca, ck, ins, peer, srvreq, v6=False, urlport=True, uhost=None, uport=None,
+             h1=0):
+    """uhost=(hk, name) / uport: the URL authority of a da-mode case (default: the unresolvable name, port token)"""
     ip, listen = ("::1", "v6") if v6 else ("127.0.0.1", "v4")
     if mode == "da":
-        name = UPC_NAME
-        auth = name + ((":" + PORT) if urlport else "")
+        if uhost is None:
+            name = UPC_NAME
+            auth = name + ((":" + PORT) if urlport else "")
+        else:
+            name = uhost[1]
+            auth = ("[" + name + "]" if uhost[0] == "v6" else name) + (":" + uport if uport else "")
         da = join(ip, PORT)
     else:
         name = ip
         auth = join(ip, PORT)
         da = ""
     url = (st + "://" if st is not None else "") + auth + ("/dns-query" if http else "")
-    return ("%s url=%s da=%s srv=%s listen=%s san=%s ca=%d ck=%d ins=%d peer=%s srvreq=%d st=%s tls=%d mode=%s"
-            % (cid, hs(url), hs(da), srv, listen, name if tls else "-", ca, ck, ins, peer if tls else "-", srvreq,
-               st if st is not None else "-", 1 if tls else 0, mode))
+    return ("%s url=%s da=%s srv=%s listen=%s san=%s ca=%d ck=%d ins=%d peer=%s srvreq=%d st=%s tls=%d mode=%s auth=%s "
+            "http=%d h1=%d" % (cid, hs(url), hs(da), srv, listen, name if tls else "-", ca, ck, ins, peer if tls else "-",
+                               srvreq, st if st is not None else "-", 1 if tls else 0, mode, auth, 1 if http else 0, h1))
 
 
 def upcfg_gen(rng, tier):
@@ -590,6 +655,19 @@ def upcfg_gen(rng, tier):
             for mode in ("da", "url"):
                 add(st, srv, tls, http, mode, 1, 1, 0, "valid", 1, v6=rng.random() < 0.25)
             add(st, srv, tls, http, rng.choice(("da", "url")), 0, 1, 0, "sysroot", 1)
+    # round 4 — DoH through the router: the Host / :authority of the request for the URL-host grammar x {port absent,
+    # default port written out, another port}; the server is reached through dial_addr
+    k = 0
+    for (st, base, dport, stream) in HH_SCHEMES:
+        tls = base != "http"
+        hosts = [("v6", "2001:db8::53"), ("v6", "::1"), ("v4", "192.0.2.53"), ("dom", "dns.example")]
+        if tier == "thorough":
+            hosts = HH_HOSTS
+        for uh in hosts:
+            for port in (None, dport, rng.choice(HH_OTHER_PORTS)):
+                k += 1
+                add(st, base, tls, True, "da", 1 if tls else 0, 0, 0, "valid", 0, v6=(k % 3 == 0), uhost=uh, uport=port,
+                    h1=(k % 2 if base == "https" else 0))
     return out
 
 
@@ -607,6 +685,11 @@ def upcfg_oracle(line, res):
     if r.get("dial", "-") == "-":
         return "%s never reached the configured target (%s)" % (
             what, "the dial_addr of the entry" if f["mode"] == "da" else "host and port of addr")
+    if f.get("http") == "1" and r.get("host", "-") != "-" and r["host"] != f["auth"]:
+        return ("%s: the Host / :authority the server received is %s, not the authority of addr as written in the "
+                "configuration (%s)" % (what, r["host"], f["auth"]))
+    if f.get("http") == "1" and r.get("x") == "ok" and r.get("host", "-") == "-":
+        return "%s: the DoH request reached the server without a Host / :authority" % what
     if f["tls"] != "1":
         if r.get("x") != "ok":
             return "%s: no answer from the server at the configured target" % what
@@ -664,7 +747,12 @@ PROPS["C17"] = dict(
          "insecure_skip_verify x 7 server certificate kinds x client cert/server demand x {dial_addr set with an "
          "unresolvable URL host, dial_addr unset with the server's loopback literal as URL host; v4/v6}, one real "
          "exchange against a fake server of the scheme's protocol, accept/refuse and arrival at the configured "
-         "target against upc_case; distinct = distinct case line, all non-trivial",
+         "target against upc_case; Host catalogue (endpoint and upcfg): http / https over HTTP/1.1 (h1-only fake "
+         "server) / https over h2 / h3, 6 spellings x 11 URL hosts (IPv4, bracketed IPv6 of 6 shapes, names) x {no port, "
+         "the scheme's DEFAULT port written out, another port} reached through dial_addr (v4 / v6 / abstract unix) "
+         "or on the privileged default port itself: r.Host of the request the fake DoH server receives (Host header "
+         "resp. :authority) against ep_host octet for octet, plus the protocol major; distinct = distinct case line, "
+         "all non-trivial",
     assumptions=["the process's system trust store is the harness' own (SSL_CERT_FILE / SSL_CERT_DIR set by build/implrun "
                  "before crypto/x509 first loads it; verified at start-up, a failure is a harness error, not an alarm)",
                  "every address of 127.0.0.0/8 is local (127.0.0.2, .3, .17, .18 are used as distinct peers)",
